@@ -10,9 +10,12 @@ temperatures and the material law are symbolic.
 Structure variants (parameter `struct`, one kind per block, see KINDS): assemblies that are NOT pin-linked from bottom to
 top (a grid-plate block with a single hexagon below the pins, a block without cladding, a block with another pin
 multiplicity: some solids - target or not - have NO axially linked component below them) and solids made of the
-user-defined `Custom` material (target and non-target).  Which components are solid, and which one is expected to be
-linked below which, is stated by the harness from the concrete structure (names / shape family / multiplicity), not
-taken from the changer's own helpers."""
+user-defined `Custom` material (target and non-target).  Further kinds: shapes that are subclasses of their neighbours' shapes (HoledHexagon reflector,
+HexHoledCircle pins) and blocks flagged PLENUM / ACLP with default or user-designated targets.  Which components are
+solid, and which one is expected to be linked below which, is stated by the harness from the concrete structure (names;
+the documented rule identical shape type / same multiplicity / overlapping footprint on the input dimensions), not taken
+from the changer's own helpers.  Histories on ONE changer instance include a second call listing only some components
+and a re-designation of the target components between two calls."""
 from symx.core import AND, OR, NOT, IMPLIES, IFF, ITE, CLOSE, Abort, is_sym
 from symx.engine import harness
 from symx import shims
@@ -59,9 +62,8 @@ KNOWN_DEFECT_zero_height_block = False  # repaired in /repo (fix: 6efafad)
 KNOWN_DEFECT_target_mass_needs_aligned_column = False  # recorded in known_findings.jsonl
 
 SOLIDS = ("fuel", "clad", "duct")
-NUC = {"fuel": "U235", "clad": "FE", "duct": "FE", "grid plate": "FE"}
+NUC = {"fuel": "U235", "clad": "FE", "duct": "FE", "grid plate": "FE", "reflector": "FE", "slug": "FE"}
 FLUIDS = ("coolant", "intercoolant")            # every other component of the hand-built blocks is a solid
-FAMILY = {"fuel": "pin", "clad": "cladding", "duct": "hex", "grid plate": "hex"}   # axial linkage: same family + same mult
 HLO, HHI = 10.0, 400.0
 GLO, GHI = 0.5, 2.0
 
@@ -94,14 +96,27 @@ KINDS = {
     "pin61": lambda: _pins(mult=61.0, od=1.1) + [_duct(), _gap()],   # multiplicity differs: pins above/below unlinked
     "cclad": lambda: _pins(cladMat="Custom") + [_duct(), _gap()],    # non-target solid of the user-defined material
     "cfuel": lambda: _pins(fuelMat="Custom") + [_duct(), _gap()],    # target solid of the user-defined material
+    # shapes that are SUBCLASSES of the shapes around them (HoledHexagon is-a Hexagon, HexHoledCircle is-a Circle): the
+    # documented linkage rule asks for identical types, so they are linked to nothing in a pin block
+    "holed": lambda: [components.HoledHexagon("reflector", "HT9", Tinput=25.0, Thot=400, op=16.0, holeOD=0.5,
+                                              nHoles=127, mult=1.0), _gap()],
+    "holedpin": lambda: [components.HexHoledCircle("fuel", "UZr", Tinput=25.0, Thot=600, od=0.76, holeOP=0.2,
+                                                   mult=127.0), _pins()[1], _duct(), _gap()],
+    # blocks flagged PLENUM / ACLP: without a designation their target is the cladding (documented default); a
+    # designation by the user (b.p.axialExpTargetComponent) has to be honoured like in any other block
+    "plenum": lambda: [_pins()[1], _duct(), _gap()],
+    "aclp": lambda: [components.Circle("slug", "HT9", Tinput=25.0, Thot=450, od=0.76, id=0.0, mult=127.0),
+                     _pins()[1], _duct(), _gap()],
 }
+BLOCKTYPE = {"plate": "grid plate", "holed": "reflector", "plenum": "plenum", "aclp": "aclp"}    # default: "fuel"
+AUTOTARGET = {"plate": "grid plate", "holed": "reflector", "plenum": "clad", "aclp": "clad"}     # default: "fuel"
 
 
 def mk_kind(kind):
     comps = KINDS[kind]()
     if comps is None:
         return _build.mk_block("fuel")
-    name = "grid plate" if kind == "plate" else "fuel"
+    name = BLOCKTYPE.get(kind, "fuel")
     b = blocks.HexBlock(name, height=10.0)
     for c in comps:
         b.add(c)
@@ -120,23 +135,46 @@ def bsolids(b):
 
 def expected_targets(n, targets=None, struct=None):
     """Name of the component that has to drive each block: the one requested, else ('auto'/'fuel') the one the changer
-    must pick itself - the fuel of a fuel block, the only solid of a grid-plate block."""
+    must pick itself - the fuel of a fuel block, the only solid of a grid-plate / reflector block, the cladding of a
+    block flagged PLENUM or ACLP."""
     out = []
     for k in range(n):
         t = "auto" if targets is None else targets[k]
         if t in ("auto", "fuel"):
-            t = "grid plate" if struct is not None and struct[k] == "plate" else "fuel"
+            t = AUTOTARGET.get(struct[k], "fuel") if struct is not None else "fuel"
         out.append(t)
     return out
 
 
+def footprint(c):
+    """(shape class name, inner extent, outer extent) of a hand-built component from its own input dimensions
+    (diameters for circles, flat-to-flat distances for hexagons; drilled holes do not reduce the footprint)."""
+    cls = type(c).__name__
+    if cls == "Circle":
+        return cls, c.p.id, c.p.od
+    if cls == "Hexagon":
+        return cls, c.p.ip, c.p.op
+    if cls == "HoledHexagon":
+        return cls, 0.0, c.p.op
+    if cls == "HexHoledCircle":
+        return cls, c.p.holeOP, c.p.od
+    raise AssertionError(cls)
+
+
+def documented_link(c, o):
+    """The documented rule: two solids are axially linked iff they have IDENTICAL shape types (a subclass is another
+    type), the same multiplicity and overlapping radial footprints (larger inner extent < smaller outer extent)."""
+    (ca, ia, oa), (cb, ib, ob) = footprint(c), footprint(o)
+    return ca == cb and c.p.mult == o.p.mult and max(ia, ib) < min(oa, ob)
+
+
 def expected_lower(a, k, c):
-    """The solid of the block below that c is axially linked to: same shape family (pin on pin, cladding on cladding,
-    hexagonal can/plate on hexagonal can/plate; in the hand-built kinds these overlap radially) and same multiplicity;
+    """The solid of the block below that c is axially linked to by the documented rule (identical shape type, same
+    multiplicity, overlapping footprint: pin on pin, cladding on cladding, hexagonal can/plate on hexagonal can/plate);
     None when the block below has none."""
     if k == 0:
         return None
-    cands = [o for o in bsolids(a[k - 1]) if FAMILY[o.name] == FAMILY[c.name] and o.p.mult == c.p.mult]
+    cands = [o for o in bsolids(a[k - 1]) if documented_link(c, o)]
     assert len(cands) <= 1
     return cands[0] if cands else None
 
@@ -208,8 +246,9 @@ def target_of(changer, b):
     return t[0] if len(t) == 1 else None
 
 
-def check_geometry(ctx, a, changer, before, tag, n, targets=None):
-    """Obligations on heights, contiguity, grid and target-driven boundaries after one expansion."""
+def check_geometry(ctx, a, changer, before, tag, n, targets=None, tnames=None):
+    """Obligations on heights, contiguity, grid and target-driven boundaries after one expansion.
+    tnames: per block the name of the component that has to be the target (see expected_targets)."""
     H = before["total"]
     ctx.check_close("%s: total assembly height unchanged" % tag, a.getTotalHeight(), H, scale=H)
     ctx.check_close("%s: top of the assembly does not move" % tag, a[-1].p.ztop, before["top"], scale=H)
@@ -235,6 +274,10 @@ def check_geometry(ctx, a, changer, before, tag, n, targets=None):
         if k < n:
             t = target_of(changer, b)
             ctx.check("%s: block %d has exactly one target component" % (tag, k), t is not None)
+            if tnames is not None:
+                ctx.check("%s: block %d: the target is the designated component (%s), and the designation stored on "
+                          "the block is kept" % (tag, k, tnames[k]),
+                          t is not None and t.name == tnames[k] and b.p.axialExpTargetComponent == tnames[k])
             ctx.check_close("%s: block %d boundary moves with its target component" % (tag, k), b.p.ztop, t.ztop,
                             scale=H)
             for c in bsolids(b):
@@ -243,8 +286,8 @@ def check_geometry(ctx, a, changer, before, tag, n, targets=None):
                 if link is None:
                     continue
                 low = link.lower
-                ctx.check("%s: block %d %s is linked to the matching component below (same family and multiplicity), "
-                          "to nothing if there is none" % (tag, k, c.name), low is expected_lower(a, k, c))
+                ctx.check("%s: block %d %s is linked to the component below of identical shape type, same multiplicity "
+                          "and overlapping footprint, to nothing if there is none" % (tag, k, c.name), low is expected_lower(a, k, c))
                 if low is not None:
                     ctx.check_close("%s: block %d %s stays stacked on the linked component below" % (tag, k, c.name),
                                     c.zbottom, low.ztop, scale=H)
@@ -288,15 +331,25 @@ def check_masses(ctx, a, changer, before, g, tag, n, canary=False):
                        "block enumerated (fuel everywhere = aligned column; clad in one block = misaligned); block "
                        "kinds enumerated (struct): grid-plate block with one hexagon below the pins, block without clad, "
                        "block with 61 instead of 127 pins (= solids with nothing linked below), clad or fuel made of the "
-                       "user-defined Custom material; targets 'auto' = chosen by the changer",
+                       "user-defined Custom material; a reflector block made of one HoledHexagon / fuel pins that are "
+                       "HexHoledCircles (subclasses of the shapes below/above them: linked to nothing by the documented "
+                       "identical-type rule); blocks flagged PLENUM / ACLP with the default target (cladding) or a "
+                       "user-designated one (duct, slug); targets 'auto' = chosen by the changer",
          stubs=STUBS, qtimeout_ms=30000,
          instances={"quick": [dict(n=2, targets=("fuel", "fuel")), dict(n=3, targets=("fuel", "fuel", "fuel")),
                               dict(n=2, targets=("clad", "fuel")), dict(n=2, targets=("fuel", "clad")),
                               dict(n=3, targets=("fuel", "clad", "fuel")),
                               dict(n=2, targets=("auto",) * 2, struct=("plate", "pin")),
                               dict(n=2, targets=("auto",) * 2, struct=("noclad", "cclad")),
-                              dict(n=2, targets=("auto",) * 2, struct=("pin", "cfuel"))],
+                              dict(n=2, targets=("auto",) * 2, struct=("pin", "cfuel")),
+                              dict(n=2, targets=("auto",) * 2, struct=("pin", "holed")),
+                              dict(n=2, targets=("duct",) * 2, struct=("aclp", "plenum"))],
                     "thorough": [dict(n=3, targets=("clad", "clad", "fuel")), dict(n=3, targets=("clad", "fuel", "clad")),
+                                 dict(n=3, targets=("auto",) * 3, struct=("holed", "pin", "holedpin")),
+                                 dict(n=2, targets=("auto",) * 2, struct=("plenum", "aclp")),
+                                 dict(n=2, targets=("fuel", "duct"), struct=("pin", "plenum")),
+                                 dict(n=2, targets=("fuel", "slug"), struct=("pin", "aclp")),
+                                 dict(n=2, targets=("fuel", "auto"), struct=("pin", "plenum")),
                                  dict(n=4, targets=("fuel",) * 4),
                                  dict(n=3, targets=("auto",) * 3, struct=("plate", "pin", "pin")),
                                  dict(n=3, targets=("auto",) * 3, struct=("pin", "pin61", "pin")),
@@ -323,7 +376,7 @@ def prescribed_expansion_keeps_height_contiguity_and_target_mass(ctx, n, targets
                   IFF(raised, room <= 0))
     if raised or not all_placed(ctx, a, "after"):
         return
-    check_geometry(ctx, a, changer, before, "after", n, targets)
+    check_geometry(ctx, a, changer, before, "after", n, targets, tnames)
     check_masses(ctx, a, changer, before, g, "after", n, canary=ctx.canary and not aligned)
     for k, b in enumerate(a[:-1]):
         t = target_of(changer, b)
@@ -368,7 +421,7 @@ def expansion_then_inverse_restores_the_assembly(ctx, n, targets, struct=None):
     ctx.check("the inverse change never fails", not raised)
     if raised or not all_placed(ctx, a, "after the inverse"):
         return
-    check_geometry(ctx, a, changer, mid, "after the inverse", n, targets)
+    check_geometry(ctx, a, changer, mid, "after the inverse", n, targets, expected_targets(n, targets, struct))
     H = start["total"]
     for k, b in enumerate(a):
         got = b.getHeight()
@@ -381,26 +434,52 @@ def expansion_then_inverse_restores_the_assembly(ctx, n, targets, struct=None):
         ctx.check_close("%s mass restored" % c.name, c.getMass(), start["mass"][c], scale=start["mass"][c])
 
 
-@harness("C12", bounds="as above; history of two independent expansions (second round of symbolic factors applied to "
-                       "the already expanded assembly); mixed-target variant", stubs=STUBS, qtimeout_ms=30000,
-         instances={"quick": [dict(n=2, targets=("fuel", "fuel")), dict(n=2, targets=("fuel", "clad"))],
+@harness("C12", bounds="as above; history of two independent expansions by ONE changer instance (second round of "
+                       "symbolic factors applied to the already expanded assembly); mixed-target variant; variant where "
+                       "the second call lists only the solids of some blocks (listed: the others have no prescribed "
+                       "change in that step); variant where the user designates another target component between the "
+                       "two calls (retarget)", stubs=STUBS, qtimeout_ms=30000,
+         instances={"quick": [dict(n=2, targets=("fuel", "fuel")), dict(n=2, targets=("fuel", "clad")),
+                              dict(n=2, targets=("fuel", "fuel"), listed=(1,)),
+                              dict(n=2, targets=("fuel", "fuel"), retarget="clad")],
                     "thorough": [dict(n=3, targets=("fuel", "fuel", "fuel")), dict(n=3, targets=("clad", "fuel", "fuel")),
+                                 dict(n=3, targets=("fuel", "fuel", "fuel"), listed=(2,)),
+                                 dict(n=2, targets=("fuel", "clad"), listed=(1,)),
+                                 dict(n=2, targets=("duct",) * 2, struct=("aclp", "plenum"), listed=(1,), retarget="clad"),
                                  dict(n=2, targets=("auto",) * 2, struct=("plate", "cfuel")),
                                  dict(n=3, targets=("auto",) * 3, struct=("noclad", "pin", "pin61"))]})
-def second_expansion_keeps_the_invariants(ctx, n, targets, struct=None):
+def second_expansion_keeps_the_invariants(ctx, n, targets, struct=None, listed=None, retarget=None):
+    """listed: indices of the blocks whose solids are listed in the SECOND call (None = all); every component that is not
+    listed has no prescribed change in that step.  retarget: component name the user designates as target of every
+    block between the two calls (None = designations unchanged).  One changer instance serves both calls."""
     a, hs = build(ctx, n, targets, struct=struct)
     comps = solids(a)
     names = {c: "%d_%s" % (k, vn(c)) for k, b in enumerate(a[:-1]) for c in bsolids(b)}
+    second = [c for k, b in enumerate(a[:-1]) for c in bsolids(b) if listed is None or k in listed]
     g1 = {c: ctx.real("g" + names[c], GLO, GHI) for c in comps}
-    g2 = {c: ctx.real("k" + names[c], GLO, GHI) for c in comps}
+    g2 = {c: ctx.real("k" + names[c], GLO, GHI) for c in second}
+    for c in comps:
+        g2.setdefault(c, 1.0)           # no change prescribed in the second step
+    tnames = expected_targets(n, targets, struct)
     changer = AxialExpansionChanger(detailedAxialExpansion=True)
     if expand(changer, a, comps, [g1[c] for c in comps]):
         return
     mid = snapshot(a)
-    if expand(changer, a, comps, [g2[c] for c in comps]) or not all_placed(ctx, a, "second round"):
+    if retarget is not None:
+        for b in a[:-1]:
+            b.p.axialExpTargetComponent = retarget
+        tnames = [retarget] * n
+    if expand(changer, a, second, [g2[c] for c in second]) or not all_placed(ctx, a, "second round"):
         return
-    check_geometry(ctx, a, changer, mid, "second round", n, targets)
+    check_geometry(ctx, a, changer, mid, "second round", n, targets, tnames)
     check_masses(ctx, a, changer, mid, g2, "second round", n, canary=ctx.canary)
+    if len(set(targets)) == 1:
+        # one aligned target column (in each step): a block grows by what was prescribed for its target IN THIS STEP
+        for k, b in enumerate(a[:-1]):
+            t = b.getComponentByName(tnames[k])
+            ctx.check_close("second round: block %d: new height = growth prescribed for its target in this step (1 if "
+                            "not listed) x height before the step" % k, b.getHeight(), g2[t] * mid["h"][k],
+                            scale=mid["total"])
 
 
 # ---------------------------------------------------------------------------------------------------------------
